@@ -4,7 +4,7 @@
    their agreement in the code is compared by the harness on every case), [write_to m script]
    is WriteTo against a writer whose i-th Write call follows the i-th verdict of [script],
    [unmarshal] is Message.UnmarshalText, [api_build ops] any message built through the public API. *)
-From GoSse Require Import Base Lines Fields FieldParser Message MessageProofs MessageApi.
+From GoSse Require Import Base Lines Fields FieldParser Message MessageProofs MessageApi MessageStable.
 From GoSse.Gen Require Import Params.
 
 (* Every int64 Retry value has an encoding: the 13-byte digit buffer of writeRetry never overflows. *)
@@ -67,4 +67,26 @@ Example C15_sample_roundtrips :
 Proof. vm_compute. reflexivity. Qed.
 Example C15_sample_fault :
   write_to (api_build c15_sample) [WOk; WOk; WOk; WOk; WFail 2 7%N] = Some (15%nat, 7%N, [105; 100; 58; 32; 105; 49; 10; 101; 118; 101; 110; 116; 58; 32; 116]).
+Proof. vm_compute. reflexivity. Qed.
+
+(* The round trip is stable.  What UnmarshalText(MarshalText m) yields encodes to the very same bytes again
+   (decode-then-encode is the identity on every encoding of an API-built message), it is its own round trip
+   (only the sub-millisecond part of Retry is lost, once), and WriteTo on it makes exactly the calls it makes on m -
+   so the byte accounting of C15_accounting carries over to decoded messages. *)
+Theorem C15_roundtrip_stable :
+  forall ops w, Forall retry_in_range ops ->
+  (forall v, m_id (api_build ops) = Some v -> has_nul v = false) ->
+  wire (api_build ops) = Some w -> w <> [] ->
+  exists m', unmarshal w = UOk m' /\ wire m' = Some w /\ roundtrip_of m' = m' /\
+             (forall script, write_to m' script = write_to (api_build ops) script).
+Proof. exact roundtrip_stable. Qed.
+
+Theorem C15_wire_of_roundtrip : forall m, wire (roundtrip_of m) = wire m.
+Proof. exact wire_roundtrip. Qed.
+
+Example C15_sample_stable :
+  match wire (api_build c15_sample) with
+  | Some w => match unmarshal w with UOk m => match wire m with Some w' => bytes_eqb w w' | None => false end | _ => false end
+  | None => false
+  end = true.
 Proof. vm_compute. reflexivity. Qed.
